@@ -182,6 +182,23 @@ pub fn stages(args: &Args, mode: Mode, allow_orient: bool) -> Vec<Stage> {
             n: args.n(20_000, 400_000),
         },
     ];
+    // large windows and pixel counts above 2^16 (run-length at L1 keeps them cheap)
+    v.push(Stage {
+        name: "l1-large",
+        mode,
+        cfg: CfgOpts { external: true, l1: true, l2: false, max_l2_area: 0 },
+        prog: po(if q { 8 } else { 16 }, 1 << 18),
+        n: args.n(1500, 40_000),
+    });
+    // the real SPI transport with transfer buffers of several kilobytes and bursts longer than
+    // the buffer
+    v.push(Stage {
+        name: "l2-spi-bigbuf",
+        mode,
+        cfg: CfgOpts { external: true, l1: false, l2: true, max_l2_area: 128 * 128 },
+        prog: po(6, 128 * 128),
+        n: args.n(400, 8000),
+    });
     if !q {
         v.push(Stage {
             name: "l2-full-panels",
@@ -204,7 +221,39 @@ pub fn run_draw(args: &Args, prop: &'static str, mode: Mode, allow_orient: bool,
         let stage_tag = format!("{}/{}", prop, st.name);
         let acc = par_cases(st.n, args.threads, args.case, |idx, a| {
             let mut rng = Rng::for_case(args.seed, &stage_tag, &args.tier, idx);
-            let cfg = gen::gen_cfg(&mut rng, &st.cfg);
+            let mut cfg = gen::gen_cfg(&mut rng, &st.cfg);
+            if st.name == "l2-spi-bigbuf" {
+                if !cfg.model.supports(crate::rig::Kind::Serial) {
+                    cfg.model = crate::rig::ModelId::ST7789;
+                }
+                cfg.tr = crate::rig::Tr::Spi;
+                cfg.spi_buf = *rng.pick(&[4098usize, 6000, 16384, 131072]);
+                let (fw, fh) = cfg.model.fb();
+                let (w, h, ox, oy) = gen::gen_window(&mut rng, fw, fh, 128 * 128);
+                cfg.w = w;
+                cfg.h = h;
+                cfg.ox = ox;
+                cfg.oy = oy;
+                if (fw as u32) >= 100 && (fh as u32) >= 100 && rng.chance(2, 3) {
+                    // large enough for bursts beyond the buffer length
+                    cfg.w = rng.range(64, (fw as i64).min(128)) as u16;
+                    cfg.h = rng.range(64, (fh as i64).min(128)) as u16;
+                    cfg.ox = rng.range(0, (fw - cfg.w) as i64) as u16;
+                    cfg.oy = rng.range(0, (fh - cfg.h) as i64) as u16;
+                }
+            }
+            if st.name == "l1-large" {
+                // windows of several hundred pixels per side (or all the framebuffer has), often
+                // anchored at the far framebuffer corner
+                let (fw, fh) = cfg.model.fb();
+                let (fw, fh) = (fw as i64, fh as i64);
+                let w = rng.range(fw.min(200), fw.min(1500));
+                let h = rng.range(fh.min(200), fh.min(1500));
+                cfg.w = w as u16;
+                cfg.h = h as u16;
+                cfg.ox = if rng.bool() { fw - w } else { rng.range(0, fw - w) } as u16;
+                cfg.oy = if rng.bool() { fh - h } else { rng.range(0, fh - h) } as u16;
+            }
             let mut po = ProgOpts { ..clone_po(&st.prog) };
             // full-size huge windows: no whole-area operations through L2
             let full = cfg.w as u64 * cfg.h as u64;
@@ -321,7 +370,7 @@ fn floors(a: &mut Acc, mode: Mode, quick: bool) {
         a.inconclusive(format!("only {} orientations exercised", o));
     }
     let t = a.sets.get("transports").map(|s| s.len()).unwrap_or(0);
-    if t < 6 {
+    if t < 7 {
         a.inconclusive(format!("only {} transports exercised", t));
     }
     if mode == Mode::Hostile {
